@@ -46,8 +46,8 @@ package memefish
 // @   ensures[C07] precdef: precOK(result)
 // @   ensures[C05] pf: pf(result)
 // @   ensures[C05] range: within(result, lowerBound(), p.Lexer.Token.Pos)
-// @   ensures[C06] nilkeeps: isEmpty(result) && len(p.errors) == old(len(p.errors)) ==> p.Lexer.Token.Pos == old(p.Lexer.Token.Pos) && trivStart(p.Lexer) == old(trivStart(p.Lexer))
-// @   ensures[C06] exact: len(p.errors) == old(len(p.errors)) ==> spans(result, lowerBound(), trivStart(p.Lexer))
+// @   ensures[C05,C06] nilkeeps: isEmpty(result) && len(p.errors) == old(len(p.errors)) ==> p.Lexer.Token.Pos == old(p.Lexer.Token.Pos) && trivStart(p.Lexer) == old(trivStart(p.Lexer))
+// @   ensures[C05,C06] exact: len(p.errors) == old(len(p.errors)) ==> spans(result, lowerBound(), trivStart(p.Lexer))
 // @   panics when true
 // @   modifies p.Lexer, p.errors, cur(p.Lexer).pos, cur(p.Lexer).Token.*, cur(p.Lexer).lastTokenKind, cur(p.Lexer).dotIdent, p.Lexer.File.lines
 // @   loop * invariant ParserInv(p) && (p.Lexer == old(p.Lexer) || fresh(p.Lexer)) && p.Lexer.File == old(p.Lexer.File) && p.Lexer.Token.Pos >= old(p.Lexer.Token.Pos) && len(p.errors) >= old(len(p.errors))
@@ -73,7 +73,7 @@ package memefish
 // @   ensures[C07] precdef: precOK(result)
 // @   ensures[C05] pf: pf(result)
 // @   ensures[C05] range: within(result, lowerBound(), p.Lexer.Token.Pos)
-// @   ensures[C06] exact: len(p.errors) == old(len(p.errors)) ==> spans(result, lowerBound(), trivStart(p.Lexer))
+// @   ensures[C05,C06] exact: len(p.errors) == old(len(p.errors)) ==> spans(result, lowerBound(), trivStart(p.Lexer))
 // @   ensures[C03] progress: len(p.errors) == old(len(p.errors)) ==> p.Lexer.Token.Pos > old(p.Lexer.Token.Pos)
 // @   ensures[C18,C05] freshres: freshRef(result)
 // @   panics when true
@@ -100,8 +100,8 @@ package memefish
 // @   ensures[C07] precdef: precOK(result)
 // @   ensures[C05] pf: pf(result)
 // @   ensures[C05] range: within(result, lowerBound(), p.Lexer.Token.Pos)
-// @   ensures[C06] nilkeeps: isEmpty(result) && len(p.errors) == old(len(p.errors)) ==> p.Lexer.Token.Pos == old(p.Lexer.Token.Pos) && trivStart(p.Lexer) == old(trivStart(p.Lexer))
-// @   ensures[C06] exact: len(p.errors) == old(len(p.errors)) ==> spans(result, lowerBound(), trivStart(p.Lexer))
+// @   ensures[C05,C06] nilkeeps: isEmpty(result) && len(p.errors) == old(len(p.errors)) ==> p.Lexer.Token.Pos == old(p.Lexer.Token.Pos) && trivStart(p.Lexer) == old(trivStart(p.Lexer))
+// @   ensures[C05,C06] exact: len(p.errors) == old(len(p.errors)) ==> spans(result, lowerBound(), trivStart(p.Lexer))
 // @   panics when true
 // @   modifies p.Lexer, p.errors, cur(p.Lexer).pos, cur(p.Lexer).Token.*, cur(p.Lexer).lastTokenKind, cur(p.Lexer).dotIdent, p.Lexer.File.lines
 // @   loop * invariant ParserInv(p) && (p.Lexer == old(p.Lexer) || fresh(p.Lexer)) && p.Lexer.File == old(p.Lexer.File) && p.Lexer.Token.Pos >= old(p.Lexer.Token.Pos) && len(p.errors) >= old(len(p.errors))
@@ -158,7 +158,7 @@ package memefish
 // @ func memefish.(*Parser).nextToken
 // @   props C03 C09
 // @   requires ParserInv0(p)
-// @   ensures[C06] lastend: trivStart(p.Lexer) == old(p.Lexer.Token.End)
+// @   ensures[C05,C06] lastend: trivStart(p.Lexer) == old(p.Lexer.Token.End)
 // @   ensures[C10] faithfulw: faithfulW(p.Lexer)
 // @   ensures[C10] faithful: strong(self) ==> faithful(p.Lexer)
 // @   ensures ParserInv(p) && p.Lexer == old(p.Lexer)
@@ -198,7 +198,7 @@ package memefish
 // @ func memefish.(*Parser).expect
 // @   props C03 C09
 // @   requires ParserInv(p)
-// @   ensures[C06] lastend: trivStart(p.Lexer) == old(p.Lexer.Token.End)
+// @   ensures[C05,C06] lastend: trivStart(p.Lexer) == old(p.Lexer.Token.End)
 // @   ensures[C10] faithfulw: faithfulW(p.Lexer)
 // @   ensures[C10] faithful: strong(self) ==> faithful(p.Lexer)
 // @   ensures ParserInv(p) && p.Lexer == old(p.Lexer)
@@ -213,7 +213,7 @@ package memefish
 // @ func memefish.(*Parser).expectIdent
 // @   props C03 C09
 // @   requires ParserInv(p)
-// @   ensures[C06] lastend: trivStart(p.Lexer) == old(p.Lexer.Token.End)
+// @   ensures[C05,C06] lastend: trivStart(p.Lexer) == old(p.Lexer.Token.End)
 // @   ensures[C10] faithfulw: faithfulW(p.Lexer)
 // @   ensures[C10] faithful: strong(self) ==> faithful(p.Lexer)
 // @   ensures ParserInv(p) && p.Lexer == old(p.Lexer)
@@ -226,7 +226,7 @@ package memefish
 // @ func memefish.(*Parser).expectKeywordLike
 // @   props C03 C09
 // @   requires ParserInv(p)
-// @   ensures[C06] lastend: trivStart(p.Lexer) == old(p.Lexer.Token.End)
+// @   ensures[C05,C06] lastend: trivStart(p.Lexer) == old(p.Lexer.Token.End)
 // @   ensures[C10] faithfulw: faithfulW(p.Lexer)
 // @   ensures[C10] faithful: strong(self) ==> faithful(p.Lexer)
 // @   ensures ParserInv(p) && p.Lexer == old(p.Lexer)
@@ -360,7 +360,7 @@ package memefish
 // @ func memefish.(*Parser).parseType
 // @   inherit parser
 // @   weak
-// @   ensures[C06] exact: len(p.errors) == old(len(p.errors)) ==> spans(result, lowerBound(), trivStart(p.Lexer)) || (p.Lexer.Token.Kind == ">" && spans(result, lowerBound(), p.Lexer.Token.Pos))
+// @   ensures[C05,C06] exact: len(p.errors) == old(len(p.errors)) ==> spans(result, lowerBound(), trivStart(p.Lexer)) || (p.Lexer.Token.Kind == ">" && spans(result, lowerBound(), p.Lexer.Token.Pos))
 // @   panics never
 // @ func memefish.(*Parser).parseDDL
 // @   inherit parser
@@ -392,12 +392,12 @@ package memefish
 // @   ensures[C05] range: within(result, old(p.Lexer.Token.Pos), p.Lexer.Token.Pos)
 // @   ensures[C05] pf: pf(result)
 // @   ensures[C05] range: within(result, lowerBound(), p.Lexer.Token.Pos)
-// @   ensures[C06] exact: len(p.errors) == old(len(p.errors)) ==> spans(result, lowerBound(), trivStart(p.Lexer))
+// @   ensures[C05,C06] exact: len(p.errors) == old(len(p.errors)) ==> spans(result, lowerBound(), trivStart(p.Lexer))
 // @   panics when true
 // @   modifies p.Lexer, p.errors, cur(p.Lexer).pos, cur(p.Lexer).Token.*, cur(p.Lexer).lastTokenKind, cur(p.Lexer).dotIdent, p.Lexer.File.lines
 // @   loop 0 invariant ParserInv(p) && (p.Lexer == old(p.Lexer) || fresh(p.Lexer)) && p.Lexer.File == old(p.Lexer.File) && p.Lexer.Token.Pos >= old(p.Lexer.Token.Pos) && len(p.errors) >= old(len(p.errors)) && len(nodes) >= 1 && wf(nodes) && pf(nodes) && within(nodes, old(p.Lexer.Token.Pos), p.Lexer.Token.Pos)
 // @   loop 0 invariant[C10] faithfull: faithfulW(p.Lexer) && (strong(doParse) ==> faithful(p.Lexer))
-// @   loop 0 invariant[C06] exactl: len(p.errors) == old(len(p.errors)) ==> spans(nodes, old(p.Lexer.Token.Pos), trivStart(p.Lexer))
+// @   loop 0 invariant[C05,C06] exactl: len(p.errors) == old(len(p.errors)) ==> spans(nodes, old(p.Lexer.Token.Pos), trivStart(p.Lexer))
 // @   loop 0 decreases len(p.Lexer.Buffer) - p.Lexer.Token.Pos
 
 // @ func memefish.parseStatements
@@ -438,7 +438,7 @@ package memefish
 // @   ensures[C07] precdef: precOK(result)
 // @   ensures[C05] pf: pf(result)
 // @   ensures[C05] range: within(result, lowerBound(), p.Lexer.Token.Pos)
-// @   ensures[C06] exact: len(p.errors) == old(len(p.errors)) ==> spans(result, lowerBound(), trivStart(p.Lexer))
+// @   ensures[C05,C06] exact: len(p.errors) == old(len(p.errors)) ==> spans(result, lowerBound(), trivStart(p.Lexer))
 // @   panics never
 // @   modifies p.Lexer, p.errors, cur(p.Lexer).pos, cur(p.Lexer).Token.*, cur(p.Lexer).lastTokenKind, cur(p.Lexer).dotIdent, p.Lexer.File.lines
 
@@ -474,60 +474,60 @@ package memefish
 // @   ensures[C07] level: prec(result) <= 12 && parenfree(result)
 // @   loop 0 invariant[C07] lvl: prec(expr) <= 12 && parenfree(expr) && precOK(expr)
 // @   loop 0 invariant chainInv(p, expr, old(len(p.errors)), old(p.Lexer.Token.Pos)) && freshRef(expr)
-// @   loop 0 invariant[C06] exactl: len(p.errors) == old(len(p.errors)) ==> spans(expr, lowerBound(), trivStart(p.Lexer))
+// @   loop 0 invariant[C05,C06] exactl: len(p.errors) == old(len(p.errors)) ==> spans(expr, lowerBound(), trivStart(p.Lexer))
 // @ func memefish.(*Parser).parseAnd
 // @   inherit parser
 // @   ensures[C07] level: prec(result) <= 11 && parenfree(result)
 // @   loop 0 invariant[C07] lvl: prec(expr) <= 11 && parenfree(expr) && precOK(expr)
 // @   loop 0 invariant chainInv(p, expr, old(len(p.errors)), old(p.Lexer.Token.Pos)) && freshRef(expr)
-// @   loop 0 invariant[C06] exactl: len(p.errors) == old(len(p.errors)) ==> spans(expr, lowerBound(), trivStart(p.Lexer))
+// @   loop 0 invariant[C05,C06] exactl: len(p.errors) == old(len(p.errors)) ==> spans(expr, lowerBound(), trivStart(p.Lexer))
 // @ func memefish.(*Parser).parseBitOr
 // @   inherit parser
 // @   ensures[C07] level: prec(result) <= 8 && parenfree(result)
 // @   loop 0 invariant[C07] lvl: prec(expr) <= 8 && parenfree(expr) && precOK(expr)
 // @   loop 0 invariant chainInv(p, expr, old(len(p.errors)), old(p.Lexer.Token.Pos)) && freshRef(expr)
-// @   loop 0 invariant[C06] exactl: len(p.errors) == old(len(p.errors)) ==> spans(expr, lowerBound(), trivStart(p.Lexer))
+// @   loop 0 invariant[C05,C06] exactl: len(p.errors) == old(len(p.errors)) ==> spans(expr, lowerBound(), trivStart(p.Lexer))
 // @ func memefish.(*Parser).parseBitXor
 // @   inherit parser
 // @   ensures[C07] level: prec(result) <= 7 && parenfree(result)
 // @   loop 0 invariant[C07] lvl: prec(expr) <= 7 && parenfree(expr) && precOK(expr)
 // @   loop 0 invariant chainInv(p, expr, old(len(p.errors)), old(p.Lexer.Token.Pos)) && freshRef(expr)
-// @   loop 0 invariant[C06] exactl: len(p.errors) == old(len(p.errors)) ==> spans(expr, lowerBound(), trivStart(p.Lexer))
+// @   loop 0 invariant[C05,C06] exactl: len(p.errors) == old(len(p.errors)) ==> spans(expr, lowerBound(), trivStart(p.Lexer))
 // @ func memefish.(*Parser).parseBitAnd
 // @   inherit parser
 // @   ensures[C07] level: prec(result) <= 6 && parenfree(result)
 // @   loop 0 invariant[C07] lvl: prec(expr) <= 6 && parenfree(expr) && precOK(expr)
 // @   loop 0 invariant chainInv(p, expr, old(len(p.errors)), old(p.Lexer.Token.Pos)) && freshRef(expr)
-// @   loop 0 invariant[C06] exactl: len(p.errors) == old(len(p.errors)) ==> spans(expr, lowerBound(), trivStart(p.Lexer))
+// @   loop 0 invariant[C05,C06] exactl: len(p.errors) == old(len(p.errors)) ==> spans(expr, lowerBound(), trivStart(p.Lexer))
 // @ func memefish.(*Parser).parseBitShift
 // @   inherit parser
 // @   ensures[C07] level: prec(result) <= 5 && parenfree(result)
 // @   loop 0 invariant[C07] lvl: prec(expr) <= 5 && parenfree(expr) && precOK(expr)
 // @   loop 0 invariant chainInv(p, expr, old(len(p.errors)), old(p.Lexer.Token.Pos)) && freshRef(expr)
-// @   loop 0 invariant[C06] exactl: len(p.errors) == old(len(p.errors)) ==> spans(expr, lowerBound(), trivStart(p.Lexer))
+// @   loop 0 invariant[C05,C06] exactl: len(p.errors) == old(len(p.errors)) ==> spans(expr, lowerBound(), trivStart(p.Lexer))
 // @ func memefish.(*Parser).parseAddSub
 // @   inherit parser
 // @   ensures[C07] level: prec(result) <= 4 && parenfree(result)
 // @   loop 0 invariant[C07] lvl: prec(expr) <= 4 && parenfree(expr) && precOK(expr)
 // @   loop 0 invariant chainInv(p, expr, old(len(p.errors)), old(p.Lexer.Token.Pos)) && freshRef(expr)
-// @   loop 0 invariant[C06] exactl: len(p.errors) == old(len(p.errors)) ==> spans(expr, lowerBound(), trivStart(p.Lexer))
+// @   loop 0 invariant[C05,C06] exactl: len(p.errors) == old(len(p.errors)) ==> spans(expr, lowerBound(), trivStart(p.Lexer))
 // @ func memefish.(*Parser).parseMulDiv
 // @   inherit parser
 // @   ensures[C07] level: prec(result) <= 3 && parenfree(result)
 // @   loop 0 invariant[C07] lvl: prec(expr) <= 3 && parenfree(expr) && precOK(expr)
 // @   loop 0 invariant chainInv(p, expr, old(len(p.errors)), old(p.Lexer.Token.Pos)) && freshRef(expr)
-// @   loop 0 invariant[C06] exactl: len(p.errors) == old(len(p.errors)) ==> spans(expr, lowerBound(), trivStart(p.Lexer))
+// @   loop 0 invariant[C05,C06] exactl: len(p.errors) == old(len(p.errors)) ==> spans(expr, lowerBound(), trivStart(p.Lexer))
 // @ func memefish.(*Parser).parseSelector
 // @   inherit parser
 // @   ensures[C07] level: prec(result) <= 1 && parenfree(result)
 // @   loop 0 invariant[C07] lvl: prec(expr) <= 1 && parenfree(expr) && precOK(expr)
 // @   loop 0 invariant chainInv(p, expr, old(len(p.errors)), old(p.Lexer.Token.Pos)) && freshRef(expr)
-// @   loop 0 invariant[C06] exactl: len(p.errors) == old(len(p.errors)) ==> spans(expr, lowerBound(), trivStart(p.Lexer))
+// @   loop 0 invariant[C05,C06] exactl: len(p.errors) == old(len(p.errors)) ==> spans(expr, lowerBound(), trivStart(p.Lexer))
 // @ func memefish.(*Parser).parseIdentOrPath
 // @   inherit parser
 // @   ensures len(result) >= 1
 // @   loop 0 invariant len(ids) >= 1 && (len(p.errors) == old(len(p.errors)) ==> p.Lexer.Token.Pos > old(p.Lexer.Token.Pos))
-// @   loop 0 invariant[C06] exactl: len(p.errors) == old(len(p.errors)) ==> spans(ids, old(p.Lexer.Token.Pos), trivStart(p.Lexer))
+// @   loop 0 invariant[C05,C06] exactl: len(p.errors) == old(len(p.errors)) ==> spans(ids, old(p.Lexer.Token.Pos), trivStart(p.Lexer))
 
 // @ func memefish.(*Parser).lookaheadSimpleType
 // @   inherit lookahead
@@ -579,22 +579,22 @@ package memefish
 // @ func memefish.(*Parser).parseFieldType
 // @   inherit parser
 // @   weak
-// @   ensures[C06] exact: len(p.errors) == old(len(p.errors)) ==> spans(result, lowerBound(), trivStart(p.Lexer)) || (p.Lexer.Token.Kind == ">" && spans(result, lowerBound(), p.Lexer.Token.Pos))
+// @   ensures[C05,C06] exact: len(p.errors) == old(len(p.errors)) ==> spans(result, lowerBound(), trivStart(p.Lexer)) || (p.Lexer.Token.Kind == ">" && spans(result, lowerBound(), p.Lexer.Token.Pos))
 
 // @ func memefish.(*Parser).parseSimpleType
 // @   inherit parser
 // the node ends at NamePos + len(Name): exact when the type name is written without back quotes;
 // for a back-quoted name (which the production accepts) the range is two bytes short: known finding
-// @   ensures[C06] exact: len(p.errors) == old(len(p.errors)) && old(len(p.Lexer.Token.Raw)) == old(len(p.Lexer.Token.AsString)) ==> spans(result, lowerBound(), trivStart(p.Lexer))
-// @   ensures[C06] exactquoted: len(p.errors) == old(len(p.errors)) ==> spans(result, lowerBound(), trivStart(p.Lexer))
+// @   ensures[C05,C06] exact: len(p.errors) == old(len(p.errors)) && old(len(p.Lexer.Token.Raw)) == old(len(p.Lexer.Token.AsString)) ==> spans(result, lowerBound(), trivStart(p.Lexer))
+// @   ensures[C05,C06] exactquoted: len(p.errors) == old(len(p.errors)) ==> spans(result, lowerBound(), trivStart(p.Lexer))
 // @   loop 0 invariant 0 - 1 <= rangeindex && rangeindex < len(simpleTypes) && len(p.errors) == old(len(p.errors)) && p.Lexer.Token.Pos > old(p.Lexer.Token.Pos)
 // @   loop 0 decreases len(simpleTypes) - rangeindex
 // @ func memefish.(*Parser).parseScalarSchemaType
 // @   inherit parser
 // the node ends at NamePos + len(Name): exact when the type name is written without back quotes;
 // for a back-quoted name (which the production accepts) the range is two bytes short: known finding
-// @   ensures[C06] exact: len(p.errors) == old(len(p.errors)) && old(len(p.Lexer.Token.Raw)) == old(len(p.Lexer.Token.AsString)) ==> spans(result, lowerBound(), trivStart(p.Lexer))
-// @   ensures[C06] exactquoted: len(p.errors) == old(len(p.errors)) ==> spans(result, lowerBound(), trivStart(p.Lexer))
+// @   ensures[C05,C06] exact: len(p.errors) == old(len(p.errors)) && old(len(p.Lexer.Token.Raw)) == old(len(p.Lexer.Token.AsString)) ==> spans(result, lowerBound(), trivStart(p.Lexer))
+// @   ensures[C05,C06] exactquoted: len(p.errors) == old(len(p.errors)) ==> spans(result, lowerBound(), trivStart(p.Lexer))
 // @   loop 0 invariant 0 - 1 <= rangeindex && rangeindex < len(scalarSchemaTypes) && len(p.errors) == old(len(p.errors)) && p.Lexer.Token.Pos > old(p.Lexer.Token.Pos)
 // @   loop 0 decreases len(scalarSchemaTypes) - rangeindex
 // @   loop 1 invariant 0 - 1 <= rangeindex && rangeindex < len(sizedSchemaTypes) && len(p.errors) == old(len(p.errors)) && p.Lexer.Token.Pos > old(p.Lexer.Token.Pos)
@@ -617,7 +617,7 @@ package memefish
 // @   ensures result == join && wf(result)
 // @   ensures[C05] pf: pf(result)
 // @   ensures[C05] range: within(result, lowerBound(), p.Lexer.Token.Pos)
-// @   ensures[C06] exact: len(p.errors) == old(len(p.errors)) && old($end(join) == trivStart(p.Lexer)) ==> spans(result, lowerBound(), trivStart(p.Lexer))
+// @   ensures[C05,C06] exact: len(p.errors) == old(len(p.errors)) && old($end(join) == trivStart(p.Lexer)) ==> spans(result, lowerBound(), trivStart(p.Lexer))
 // @   panics when true
 // @   modifies p.Lexer, p.errors, cur(p.Lexer).pos, cur(p.Lexer).Token.*, cur(p.Lexer).lastTokenKind, cur(p.Lexer).dotIdent, p.Lexer.File.lines, node(join).Sample
 
@@ -637,7 +637,7 @@ package memefish
 // @   ensures[C07] precdef: precOK(result)
 // @   ensures[C05] pf: pf(result)
 // @   ensures[C05] range: within(result, lowerBound(), p.Lexer.Token.Pos)
-// @   ensures[C06] exact: len(p.errors) == old(len(p.errors)) && old($end(e) == trivStart(p.Lexer)) ==> spans(result, lowerBound(), trivStart(p.Lexer))
+// @   ensures[C05,C06] exact: len(p.errors) == old(len(p.errors)) && old($end(e) == trivStart(p.Lexer)) ==> spans(result, lowerBound(), trivStart(p.Lexer))
 // @   ensures result == e || freshRef(result)
 // @   panics when true
 // @   modifies p.Lexer, p.errors, cur(p.Lexer).pos, cur(p.Lexer).Token.*, cur(p.Lexer).lastTokenKind, cur(p.Lexer).dotIdent, p.Lexer.File.lines
@@ -645,7 +645,7 @@ package memefish
 // @ func memefish.(*Parser).parseTableExpr
 // @   inherit parser
 // @   loop 0 invariant chainInv(p, join, old(len(p.errors)), old(p.Lexer.Token.Pos)) && freshRef(join)
-// @   loop 0 invariant[C06] exactl: len(p.errors) == old(len(p.errors)) ==> spans(join, lowerBound(), trivStart(p.Lexer))
+// @   loop 0 invariant[C05,C06] exactl: len(p.errors) == old(len(p.errors)) ==> spans(join, lowerBound(), trivStart(p.Lexer))
 
 // @ func memefish.(*Parser).tryParseFrom
 // @   inherit parseropt
@@ -670,7 +670,7 @@ package memefish
 // @   ensures[C07] precdef: precOK(result)
 // @   ensures[C05] pf: pf(result)
 // @   ensures[C05] range: within(result, lowerBound(), p.Lexer.Token.Pos)
-// @   ensures[C06] exact: len(p.errors) == old(len(p.errors)) ==> spans(result, lowerBound(), trivStart(p.Lexer))
+// @   ensures[C05,C06] exact: len(p.errors) == old(len(p.errors)) ==> spans(result, lowerBound(), trivStart(p.Lexer))
 // @   ensures[C18,C05] freshres: freshRef(result)
 // @   panics when true
 // @   modifies p.Lexer, p.errors, cur(p.Lexer).pos, cur(p.Lexer).Token.*, cur(p.Lexer).lastTokenKind, cur(p.Lexer).dotIdent, p.Lexer.File.lines
@@ -678,27 +678,27 @@ package memefish
 // Finishers: the caller hands in the node(s) it has just parsed.
 // @ func memefish.(*Parser).parsePathTableExprSuffix
 // @   inherit parsersuffix
-// @   ensures[C06] exact: len(p.errors) == old(len(p.errors)) && old($end(id) == trivStart(p.Lexer)) ==> spans(result, lowerBound(), trivStart(p.Lexer))
+// @   ensures[C05,C06] exact: len(p.errors) == old(len(p.errors)) && old($end(id) == trivStart(p.Lexer)) ==> spans(result, lowerBound(), trivStart(p.Lexer))
 // @   requires notNil(id)
 // @ func memefish.(*Parser).parseTableNameSuffix
 // @   inherit parsersuffix
-// @   ensures[C06] exact: len(p.errors) == old(len(p.errors)) && old($end(id) == trivStart(p.Lexer)) ==> spans(result, lowerBound(), trivStart(p.Lexer))
+// @   ensures[C05,C06] exact: len(p.errors) == old(len(p.errors)) && old($end(id) == trivStart(p.Lexer)) ==> spans(result, lowerBound(), trivStart(p.Lexer))
 // @   requires notNil(id)
 // @ func memefish.(*Parser).parseUnnestSuffix
 // @   inherit parsersuffix
-// @   ensures[C06] exact: len(p.errors) == old(len(p.errors)) && old(rparen + 1 == trivStart(p.Lexer)) ==> spans(result, lowerBound(), trivStart(p.Lexer))
+// @   ensures[C05,C06] exact: len(p.errors) == old(len(p.errors)) && old(rparen + 1 == trivStart(p.Lexer)) ==> spans(result, lowerBound(), trivStart(p.Lexer))
 // @   requires notNil(expr)
 // @   requires[C05] order: unnest <= $pos(expr) && $end(expr) <= rparen && rparen < p.Lexer.Token.Pos
 // @ func memefish.(*Parser).parseNewConstructor
 // @   inherit parser
 // @   requires notNil(namedType)
 // @   requires[C05] argorder: 0 <= newPos && newPos < $pos(namedType)
-// @   ensures[C06] exact: len(p.errors) == old(len(p.errors)) && old(newPos <= $pos(namedType)) ==> spans(result, lowerBound(), trivStart(p.Lexer))
+// @   ensures[C05,C06] exact: len(p.errors) == old(len(p.errors)) && old(newPos <= $pos(namedType)) ==> spans(result, lowerBound(), trivStart(p.Lexer))
 // @ func memefish.(*Parser).parseBracedNewConstructor
 // @   inherit parser
 // @   requires notNil(namedType)
 // @   requires[C05] argorder: 0 <= newPos && newPos < $pos(namedType)
-// @   ensures[C06] exact: len(p.errors) == old(len(p.errors)) && old(newPos <= $pos(namedType)) ==> spans(result, lowerBound(), trivStart(p.Lexer))
+// @   ensures[C05,C06] exact: len(p.errors) == old(len(p.errors)) && old(newPos <= $pos(namedType)) ==> spans(result, lowerBound(), trivStart(p.Lexer))
 // @ func memefish.(*Parser).tryParseCreateModelColumn
 // @   inherit parser
 // @ func memefish.(*Parser).parseChangeStreamFor
@@ -760,51 +760,51 @@ package memefish
 // @ func memefish.(*Parser).parseOnDeleteAction
 // @   inherit parser
 // @   ensures[C05] inside: old(p.Lexer.Token.Pos) < result1 && result1 <= p.Lexer.Token.Pos
-// @   ensures[C06] endpos: len(p.errors) == old(len(p.errors)) ==> result1 == trivStart(p.Lexer) && result1 >= 0
+// @   ensures[C05,C06] endpos: len(p.errors) == old(len(p.errors)) ==> result1 == trivStart(p.Lexer) && result1 >= 0
 // @ func memefish.(*Parser).tryParseOnDeleteAction
 // @   inherit parseropt
 // @   ensures[C05] inside: result1 < 0 || (old(p.Lexer.Token.Pos) < result1 && result1 <= p.Lexer.Token.Pos)
-// @   ensures[C06] endpos: len(p.errors) == old(len(p.errors)) ==> (result1 >= 0 && result1 == trivStart(p.Lexer)) || (result1 < 0 && lexUnmoved(p, old(p.Lexer.Token.Pos), old(trivStart(p.Lexer))))
+// @   ensures[C05,C06] endpos: len(p.errors) == old(len(p.errors)) ==> (result1 >= 0 && result1 == trivStart(p.Lexer)) || (result1 < 0 && lexUnmoved(p, old(p.Lexer.Token.Pos), old(trivStart(p.Lexer))))
 // @ func memefish.(*Parser).tryParseDirection
 // @   inherit parseropt
 // @   ensures[C05] inside: result1 < 0 || (old(p.Lexer.Token.Pos) <= result1 && result1 + len(result0) <= p.Lexer.Token.Pos)
-// @   ensures[C06] dirpos: len(p.errors) == old(len(p.errors)) ==> (result1 >= 0 && result1 == old(p.Lexer.Token.Pos) && result1 + len(result0) == trivStart(p.Lexer)) || (result1 < 0 && len(result0) == 0 && lexUnmoved(p, old(p.Lexer.Token.Pos), old(trivStart(p.Lexer))))
+// @   ensures[C05,C06] dirpos: len(p.errors) == old(len(p.errors)) ==> (result1 >= 0 && result1 == old(p.Lexer.Token.Pos) && result1 + len(result0) == trivStart(p.Lexer)) || (result1 < 0 && len(result0) == 0 && lexUnmoved(p, old(p.Lexer.Token.Pos), old(trivStart(p.Lexer))))
 // @ func memefish.(*Parser).parseArrayLiteralBody
 // @   inherit parser
 // @   ensures[C05] inside: old(p.Lexer.Token.Pos) <= result1 && result1 < result2 && result2 < p.Lexer.Token.Pos && within(result0, result1 + 1, result2)
 // @   loop 0 invariant[C05] vin: lbrack == old(p.Lexer.Token.Pos) && lbrack < p.Lexer.Token.Pos && within(values, lbrack + 1, p.Lexer.Token.Pos)
-// @   ensures[C06] brackets: len(p.errors) == old(len(p.errors)) ==> result1 == old(p.Lexer.Token.Pos) && result2 >= 0 && result2 + 1 == trivStart(p.Lexer)
+// @   ensures[C05,C06] brackets: len(p.errors) == old(len(p.errors)) ==> result1 == old(p.Lexer.Token.Pos) && result2 >= 0 && result2 + 1 == trivStart(p.Lexer)
 // @ func memefish.(*Parser).parseTypeNotNull
 // @   inherit parser
 // @   ensures[C05] inside: result2 < 0 || ($end(result0) <= result2 && result2 + 4 <= p.Lexer.Token.Pos)
-// @   ensures[C06] nullpos: len(p.errors) == old(len(p.errors)) ==> $pos(result0) == old(p.Lexer.Token.Pos) && ((result1 && result2 >= 0 && result2 + 4 == trivStart(p.Lexer)) || (!result1 && result2 < 0 && $end(result0) == trivStart(p.Lexer)))
+// @   ensures[C05,C06] nullpos: len(p.errors) == old(len(p.errors)) ==> $pos(result0) == old(p.Lexer.Token.Pos) && ((result1 && result2 >= 0 && result2 + 4 == trivStart(p.Lexer)) || (!result1 && result2 < 0 && $end(result0) == trivStart(p.Lexer)))
 // @ func memefish.(*Parser).tryParseTablePrivilegeColumns
 // @   inherit parseropt
 // @   ensures[C05] inside: (result1 < 0 && len(result0) == 0) || (old(p.Lexer.Token.Pos) < result1 && result1 < p.Lexer.Token.Pos && within(result0, old(p.Lexer.Token.Pos) + 1, result1))
-// @   ensures[C06] rparen: len(p.errors) == old(len(p.errors)) ==> (result1 >= 0 && result1 + 1 == trivStart(p.Lexer)) || (result1 < 0 && lexUnmoved(p, old(p.Lexer.Token.Pos), old(trivStart(p.Lexer))))
+// @   ensures[C05,C06] rparen: len(p.errors) == old(len(p.errors)) ==> (result1 >= 0 && result1 + 1 == trivStart(p.Lexer)) || (result1 < 0 && lexUnmoved(p, old(p.Lexer.Token.Pos), old(trivStart(p.Lexer))))
 
 
 // Types that may end at the first half of a '>>' (the parser splits that token in place): their range
 // ends at the end of the last consumed token, or - right after a split - where the second '>' starts.
 // @ func memefish.(*Parser).parseArrayType
 // @   inherit parser
-// @   ensures[C06] exact: len(p.errors) == old(len(p.errors)) ==> spans(result, lowerBound(), trivStart(p.Lexer)) || (p.Lexer.Token.Kind == ">" && spans(result, lowerBound(), p.Lexer.Token.Pos))
+// @   ensures[C05,C06] exact: len(p.errors) == old(len(p.errors)) ==> spans(result, lowerBound(), trivStart(p.Lexer)) || (p.Lexer.Token.Kind == ">" && spans(result, lowerBound(), p.Lexer.Token.Pos))
 // @ func memefish.(*Parser).parseStructType
 // @   inherit parser
-// @   ensures[C06] exact: len(p.errors) == old(len(p.errors)) ==> spans(result, lowerBound(), trivStart(p.Lexer)) || (p.Lexer.Token.Kind == ">" && spans(result, lowerBound(), p.Lexer.Token.Pos))
+// @   ensures[C05,C06] exact: len(p.errors) == old(len(p.errors)) ==> spans(result, lowerBound(), trivStart(p.Lexer)) || (p.Lexer.Token.Kind == ">" && spans(result, lowerBound(), p.Lexer.Token.Pos))
 // @ func memefish.(*Parser).parseStructTypeFields
 // @   inherit parser
 // @   ensures[C05] inside: old(p.Lexer.Token.Pos) <= result1 && result1 < p.Lexer.Token.Pos && within(result0, old(p.Lexer.Token.Pos), result1)
-// @   ensures[C06] gtpos: len(p.errors) == old(len(p.errors)) ==> result1 >= 0 && (result1 + 1 == trivStart(p.Lexer) || (p.Lexer.Token.Kind == ">" && result1 + 1 == p.Lexer.Token.Pos))
+// @   ensures[C05,C06] gtpos: len(p.errors) == old(len(p.errors)) ==> result1 >= 0 && (result1 + 1 == trivStart(p.Lexer) || (p.Lexer.Token.Kind == ">" && result1 + 1 == p.Lexer.Token.Pos))
 
 
 // Lists that may be empty (C06): nothing consumed while the list is empty, exact span afterwards.
 // @ func memefish.(*Parser).parsePipeOperators
 // @   inherit parsernp
-// @   loop 0 invariant[C06] exactl: len(p.errors) == old(len(p.errors)) ==> spans(pipeOps, old(p.Lexer.Token.Pos), trivStart(p.Lexer)) && (len(pipeOps) == 0 ==> lexUnmoved(p, old(p.Lexer.Token.Pos), old(trivStart(p.Lexer))))
+// @   loop 0 invariant[C05,C06] exactl: len(p.errors) == old(len(p.errors)) ==> spans(pipeOps, old(p.Lexer.Token.Pos), trivStart(p.Lexer)) && (len(pipeOps) == 0 ==> lexUnmoved(p, old(p.Lexer.Token.Pos), old(trivStart(p.Lexer))))
 // @ func memefish.(*Parser).parseSequenceParams
 // @   inherit parsernp
-// @   loop 0 invariant[C06] exactl: len(p.errors) == old(len(p.errors)) ==> spans(params, old(p.Lexer.Token.Pos), trivStart(p.Lexer)) && (len(params) == 0 ==> lexUnmoved(p, old(p.Lexer.Token.Pos), old(trivStart(p.Lexer))))
+// @   loop 0 invariant[C05,C06] exactl: len(p.errors) == old(len(p.errors)) ==> spans(params, old(p.Lexer.Token.Pos), trivStart(p.Lexer)) && (len(params) == 0 ==> lexUnmoved(p, old(p.Lexer.Token.Pos), old(trivStart(p.Lexer))))
 
 // ---------------------------------------------------------------------------------------------
 // Ordering facts that a loop must carry (C05): a child parsed before the loop lies before the list the
@@ -826,10 +826,10 @@ package memefish
 // and the keyword at `pos`; the hint lies before the keyword.
 // @ func memefish.(*Parser).parseInsert
 // @   inherit parser
-// @   ensures[C06] exact: len(p.errors) == old(len(p.errors)) && old(isNil(hint) || $pos(hint) < pos) ==> spans(result, lowerBound(), trivStart(p.Lexer))
+// @   ensures[C05,C06] exact: len(p.errors) == old(len(p.errors)) && old(isNil(hint) || $pos(hint) < pos) ==> spans(result, lowerBound(), trivStart(p.Lexer))
 // @ func memefish.(*Parser).parseUpdate
 // @   inherit parser
-// @   ensures[C06] exact: len(p.errors) == old(len(p.errors)) && old(isNil(hint) || $pos(hint) < pos) ==> spans(result, lowerBound(), trivStart(p.Lexer))
+// @   ensures[C05,C06] exact: len(p.errors) == old(len(p.errors)) && old(isNil(hint) || $pos(hint) < pos) ==> spans(result, lowerBound(), trivStart(p.Lexer))
 // @ func memefish.(*Parser).parseDelete
 // @   inherit parser
-// @   ensures[C06] exact: len(p.errors) == old(len(p.errors)) && old(isNil(hint) || $pos(hint) < pos) ==> spans(result, lowerBound(), trivStart(p.Lexer))
+// @   ensures[C05,C06] exact: len(p.errors) == old(len(p.errors)) && old(isNil(hint) || $pos(hint) < pos) ==> spans(result, lowerBound(), trivStart(p.Lexer))
